@@ -221,6 +221,22 @@ def td_converted_transform(cx, N, nb):
     A.transform(S)
     B.transform(S)
     cx.prove_eq("same_after_transform", A._data, B._data, tol=1e-7)
+    # the other order: the operator form is transformed first (Lambda^dagger must follow Lambda), then converted
+    from quantarhei.qm import RedfieldRelaxationTensor
+    if N > 2:
+        return      # (the second order with a general element of O(3) takes more than the quick budget)
+    for label, cls in (("td", TDRedfieldRelaxationTensor), ("ti", RedfieldRelaxationTensor)):
+        C = cls(ham, sbi, as_operators=True)
+        C.transform(S)
+        Lm, Ld = numpy.asarray(C.Lm), numpy.asarray(C.Ld)
+        cx.prove_eq("%s/Ld_is_adjoint_of_Lm_after_transform" % label, Ld,
+                    numpy.conj(numpy.swapaxes(Lm, -1, -2)), tol=1e-7)
+        C.convert_2_tensor()
+        Bt = B if label == "td" else None
+        if Bt is None:
+            Bt = RedfieldRelaxationTensor(ham, sbi, as_operators=False)
+            Bt.transform(S)
+        cx.prove_eq("%s/transformed_then_converted_equals_tensor_born" % label, C._data, Bt._data, tol=1e-7)
 
 
 @harness("C07", "td_sampling",
